@@ -45,7 +45,9 @@ def runIdict (ops : List Json) : Except String (List String) := do
     | "popdefault" =>
       let k ← parseKey a[1]!
       let (d', r) := d.pop k
-      d := d'; out := out ++ [toString (r.getD (← jNat a[2]!))]
+      -- the default may be None (JSON null): an explicit None default is still a default
+      let dflt ← jOptNat a[2]!
+      d := d'; out := out ++ [match r with | some v => toString v | none => (match dflt with | some v => toString v | none => "None")]
     | "setdefault" =>
       let (d', r) := d.setdefault (← parseKey a[1]!) (← jNat a[2]!)
       d := d'; out := out ++ [toString r]
